@@ -677,13 +677,14 @@ def main(run):
     pairs = [("instantiate", "instantiate"), ("instantiate", "meta_then_helper"), ("instantiate", "fields_then_helper"), ("spec_class_attr", "dataclass_fields"),
              ("instantiate_kw", "subclass_instantiate"), ("dataclasses_fields", "instantiate"), ("subclass_meta", "instantiate")]
     bodies_q = ["attr_factory", "one_attr", "inherit_lazy_parent", "own_new", "inherit_collision"]
-    for b in (bodies_q if quick else list(BODIES)):
+    # (the two module-level bodies have their own thread tasks below / are sequential by nature)
+    for b in (bodies_q if quick else [x for x in BODIES if x not in ("shared_decorator", "mutual_reference")]):
         for tp in (pairs[:3] if quick else pairs):
             tasks.append({"part": "threads", "body": b, "triggers": list(tp), "bound": 1})
     if not quick:
         tasks.append({"part": "threads", "body": "one_attr", "triggers": ["instantiate", "instantiate"], "bound": 2})
     tasks.append({"part": "threads", "body": "one_attr", "triggers": ["instantiate", "instantiate", "meta_then_helper"], "bound": 0 if quick else 1})
-    tasks.append({"part": "threads", "body": "mutual_reference", "triggers": ["instantiate", "instantiate_other"], "bound": 1 if quick else 2})
+    tasks.append({"part": "threads", "body": "mutual_reference", "triggers": ["instantiate", "instantiate_other"], "bound": 1})
     tasks.append({"part": "threads", "body": "mutual_reference", "triggers": ["instantiate_other", "meta_then_helper"], "bound": 1})
     if not quick:
         for b in ("attr_factory", "inherit_lazy_parent"):
